@@ -9,3 +9,6 @@ PAIRS = [
     dict(name="os_alloc_aligned", harness=H, enforce="_mi_os_alloc_aligned", replace=["_mi_prim_alloc", "_mi_prim_free", "_mi_prim_commit", "_mi_os_good_alloc_size", "mi_option_is_enabled", "mi_option_get"], label="P",
          functions=["_mi_os_alloc_aligned", "mi_os_prim_alloc_aligned", "mi_os_prim_alloc", "mi_os_prim_free"], timeout=300),
 ]
+import arena_common, os_common
+A = arena_common.pairs(); O = os_common.pairs()
+PAIRS += [A["arena_free"], A["arena_purge"], O["os_purge_ex"]]
